@@ -5,7 +5,7 @@ import Mathlib.Tactic.SplitIfs
 /-! # Tie: `Model._get_value`, its nested `expand_derivatives` and `Model.get_value` (generated from the source)
       = `expand`, `getValueAux`, `getValue` of the hand model `Model/Roles.lean` -/
 
-namespace Cellml.Tie
+namespace Cellml.Tie.PRoles
 open Model Cellml.Gen
 
 -- ================================================================================================ expand_derivatives
@@ -711,4 +711,4 @@ theorem getValue_tie (M : RModel) (v : Nat) (hl : odeLhsOk M = true)
       obtain ⟨q, m'⟩ := p'
       simp only [Except.ok.injEq] at h
       simp only [h, errClass]
-end Cellml.Tie
+end Cellml.Tie.PRoles
